@@ -341,7 +341,30 @@ impl ParseWarningKind {
                 pltotf_message: "The design size must be at least 1".into(),
                 pltotf_section: (88, 1),
             },
-            _ => todo!("unhandled {self:?}"),
+            DecimalNumberIsTooBig => Data {
+                rule: "decimal numbers must be less than 2048 in absolute value".into(),
+                problem: "this decimal number is too big".into(),
+                action: "0 will be used instead, or 1 if the number only reaches 2048 after rounding",
+                pltotf_message: "Real constants must be less than 2048".into(),
+                pltotf_section: (64, 1),
+            },
+            LigTableIsTooBig => Data {
+                rule: format![
+                    "a lig table can contain at most {} LIG and KRN instructions",
+                    super::MAX_LIG_KERN_INSTRUCTIONS
+                ],
+                problem: "the lig table is too big".into(),
+                action: "this instruction will be ignored",
+                pltotf_message: "Sorry, LIGTABLE too long for me to handle".into(),
+                pltotf_section: (101, 1),
+            },
+            NotReallySevenBitSafe => Data {
+                rule: "in a seven bit safe file, characters smaller than 128 cannot lead to characters of 128 or more through ligatures, next larger chains or extensible recipes".into(),
+                problem: "the file claims to be seven bit safe but is not".into(),
+                action: "the seven bit safe flag will be set to false",
+                pltotf_message: "The font is not really seven-bit-safe!".into(),
+                pltotf_section: (110, 1),
+            },
         }
     }
 }
